@@ -199,7 +199,7 @@ def _serde(ctx):
         vm = [b for b in nested if b.fn_name == 'visit_map']
         dkeys = sorted({x[1] for b in vs for x in strs_in_call_args(b)})
         mkeys = sorted({x[1] for b in vm for x in strs_in_call_args(b, 'missing_field')})
-        ok = len(sk) == len(fields) and len(set(sk)) == len(sk) and None not in sk and sorted(sk) == dkeys == mkeys \
+        ok = len(sk) == len(fields) and len(set(sk)) == len(sk) and None not in sk and sorted(sk) == dkeys and set(mkeys) <= set(sk) \
             and nfield == len(fields) and vals_ok
         rep.check(ok, 'R1', 'fields-agree:%s' % adt, where(s),
                   'writer keys = reader keys = required keys = %s; each written from the same-position field' % sk,
